@@ -30,7 +30,7 @@ CONFIGS = {
                 "Optimizer.max_length drawn from 0..6; non-trivial = some level with >= 2 strings was generated after the cache "
                 "already held entries from another generator; distinct = distinct (model, op history)",
         "components": _COMP,
-        "assumptions": ["levels whose reference enumeration exceeds 20000 strings are skipped"],
+        "assumptions": ["levels whose reference enumeration exceeds 20000 strings (3000 beyond level 8), or 20000 cumulative per model, are skipped"],
         "quick_budget_s": 30, "thorough_budget_s": 600, "chunk": 10,
     },
     "C11": {
@@ -43,14 +43,14 @@ CONFIGS = {
                 "(ruleset, candidate)",
         "components": {"real": ["run_trainer (3 passes)", "AlphabetLookup/smoothing/find_omen_level", "omen_file_output", "OmenScorer",
                                 "guesser load_rules + MarkovCracker"], "stub": ["uuid", "stdout sinks"]},
-        "assumptions": ["guesser levels are enumerated up to Lmax chosen so that the total stays <= 60000 strings; a string the other "
+        "assumptions": ["guesser levels are enumerated up to Lmax chosen so that the total stays <= 15000 strings; a string the other "
                         "parties put above Lmax is not compared with the guesser"],
         "quick_budget_s": 30, "thorough_budget_s": 600, "chunk": 6,
     },
     "C18": {
         "level": "exploration",
         "rule": "one run = training list (incl. lists dominated by one length or by length == n-gram) -> real trainer; for every "
-                "level listed in omen_keyspace.txt with reference count <= 50000: keyspace == distinct strings the real generator "
+                "level listed in omen_keyspace.txt with reference count <= 8000 (15000 cumulative per ruleset, deterministic work bound): keyspace == distinct strings the real generator "
                 "emits == RefOmen count, and pcfg_omen_prob[L] == (pws_at_L / N) / keyspace_L; non-trivial = listed level with "
                 "keyspace >= 2; distinct = distinct (ruleset, level)",
         "components": {"real": ["run_trainer", "calc_omen_keyspace", "omen_file_output", "guesser load_rules + MarkovCracker"],
@@ -471,9 +471,28 @@ def run_c11(t, tier, res):
     for lv, pr in probs:
         byp[float(pr)].append(lv)
     tied = [lvs for pr, lvs in byp.items() if pr > 0 and len(lvs) > 1]
-    if tied:
-        res.violate("C11", "levels_with_equal_probability_not_all_generated", {"levels": tied[0]},
-                    key="markov-group-of-equal-probability-levels:only-first-level-generated")
+    if tied and all(0 <= int(l) <= lmax for l in tied[0]):
+        # run the guesser's own Markov expansion for that group and see which of the tied levels it generates
+        try:
+            out = guesser.LineRecorder()
+            with guesser.streams(out, guesser.Sink()):
+                pcfg = guesser.load(tr.rule_dir)
+                gi = next(i for i, grp in enumerate(pcfg.grammar["M"]) if set(grp["values"]) >= set(tied[0]))
+                _WORK[0] = 600000
+                pcfg.create_guesses([("M", gi)])
+            produced = set(guesser.split_lines(out.text()))
+            want_all = {s for s, lv in emitted.items() if lv & {int(l) for l in tied[0]}}
+            first_only = {s for s, lv in emitted.items() if int(pcfg.grammar["M"][gi]["values"][0]) in lv}
+            if produced != want_all and produced == first_only:
+                res.violate("C11", "levels_with_equal_probability_not_all_generated", {"levels": tied[0], "generated": len(produced),
+                                                                                    "counted_by_trainer": len(want_all)},
+                            key="markov-group-of-equal-probability-levels:only-first-level-generated")
+            elif produced != want_all:
+                res.violate("C11", "markov_group_generates_wrong_strings", {"levels": tied[0]})
+        except (WorkLimit, StopIteration):
+            pass
+        finally:
+            _WORK[0] = None
     # per-level counts file (levels recomputed from the saved model, independently of pass 3)
     tally = collections.Counter(ref.level(p) for p in (tr.cap.reads[-1] if tr.cap.reads else pws))
     per_level = {int(a): int(b) for a, b in read_pairs(os.path.join(odir, "omen_pws_per_level.txt"), enc)}
